@@ -105,6 +105,9 @@ func modelValues(o *Obligation, terms []string, opts solveOpts) ([]string, strin
 		if i >= o.Prefix && !strings.HasPrefix(l, "(declare-") && !strings.HasPrefix(l, "(define-") {
 			continue
 		}
+		if o.relaxed && strings.Contains(l, "(forall ") {
+			continue
+		}
 		b.WriteString(l)
 		b.WriteByte('\n')
 	}
